@@ -166,7 +166,25 @@ def member_table(rep, idx, sig, table):
     mem = idx.members(sig)
     site = sig.site
     enums = idx.enums
-    ctx = ir.NormCtx(enums=enums)
+    from .common import property_aliases, get_ctor
+    ctor = get_ctor(idx, sig)
+    aliases = dict(property_aliases(idx, sig))
+    # self._x  ->  what the constructor stored there; locals -> their defining expressions
+    stored = {ir.parse(k): v[0] for k, v in ctor.stores.items() if k.startswith("self._")}
+    local = {('name', k): v for k, v in ctor.t.final_env.items() if isinstance(v, tuple) and v[0] not in ('localfn',) and k not in ctor.fi.params}
+
+    class _Ctx(ir.NormCtx):
+        pass
+    ctx = ir.NormCtx(enums=enums, aliases=aliases)
+
+    def resolve(e):
+        e = ir.norm(e, ctx)
+        for _ in range(4):
+            e2 = ir.norm(ir.subst(e, lambda x: stored.get(x) if x in stored else local.get(x)), ctx)
+            if e2 == e:
+                break
+            e = e2
+        return e
     for name, (flow, shape, guard) in table.items():
         decl = mem.get(name)
         what = f"{sig.qual}.{name}: {flow}({shape})" + (f" iff {guard}" if guard else "")
@@ -175,9 +193,9 @@ def member_table(rep, idx, sig, table):
             continue
         f_, sh, conds, ln, arr = decl[0]
         ok_flow = f_ == flow
-        ok_shape = ir.norm(sh, ctx) == ir.norm(ir.parse(shape), ctx)
-        want_conds = [] if guard is None else [(ir.norm(ir.parse(guard), ctx), True)]
-        got_conds = [(ir.norm(c_, ctx), p) for c_, p in conds]
+        ok_shape = resolve(sh) == resolve(ir.parse(shape))
+        want_conds = [] if guard is None else [(resolve(ir.parse(guard)), True)]
+        got_conds = [(resolve(c_), p) for c_, p in conds]
         ok_guard = got_conds == want_conds
         detail = []
         if not ok_flow:
@@ -203,39 +221,42 @@ def parameters(rep, idx, P, sig, icls):
             stored.add(st.targets[0].attr.lstrip("_"))
     rep.check(set(params) <= stored, "C20.4", site, f"{sig.qual}.__init__ stores every defining parameter {params}",
               f"not stored: {sorted(set(params) - stored)}")
-    # (b) __eq__ compares exactly these
+    # (b) __eq__ is true exactly when the other object is of this signature class and every defining parameter is equal:
+    #     decided on the Boolean function the method computes (and-chain, early returns, != with False, ... all the same)
     eq = sig.method("__eq__")
     if eq is None:
         rep.bad("C20.4", site, f"{sig.qual}.__eq__", "no __eq__: equality would ignore the parameters")
     else:
-        rets = [n.value for n in ast.walk(eq.node) if isinstance(n, ast.Return) and n.value is not None]
-        conj = []
-        if len(rets) == 1:
-            v = ir.norm(ir.from_ast(rets[0], {}))
-            conj = list(v[1]) if v[0] == 'and' else [v]
-        has_isinst = any(x[0] == 'call' and x[1] == ('name', 'isinstance') and len(x[2]) == 2 and x[2][0] == ('name', 'other') and
-                         idx.resolve_class(x[2][1], sig.module, sig.outer) is sig for x in conj)
-        compared = set()
-        odd = []
-        for x in conj:
-            if x[0] == 'cmp' and x[1] == '==':
-                a, b = x[2], x[3]
-                # linear form of numeric compare: (self.p - other.p) == 0
-                txt = ir.show(x)
+        from .common import get_fn, _formula
+        from ..core import dl
+        c = get_fn(idx, eq)
+        isinst = None
+        for n in ast.walk(eq.node):
+            if isinstance(n, ast.Call) and isinstance(n.func, ast.Name) and n.func.id == "isinstance" and len(n.args) == 2 and \
+                    isinstance(n.args[0], ast.Name) and n.args[0].id == "other" and \
+                    idx.resolve_class(ir.from_ast(n.args[1], {}), sig.module, sig.outer) is sig:
+                isinst = c.norm(ir.from_ast(n, {}))
+        rep.check(isinst is not None, "C20.4", eq.site, f"{sig.qual}.__eq__ requires the same signature class", "no isinstance(other, <this class>) test")
+        if isinst is not None:
+            try:
+                found = dl.F
+                for v, gen, ln in c.t.returns:
+                    conds = [(c.norm(fr[1]), fr[2]) for fr in gen if fr[0] == 'pyif']
+                    found = dl.f_or(found, dl.f_and(_formula(c, conds), c.eng.cond(v)))
+                alts = []
                 for p in params:
-                    forms = [ir.norm(ir.parse(f"self.{p} == other.{p}")), ir.norm(ir.parse(f"Shape.cast(self.{p}) == Shape.cast(other.{p})"))]
-                    if x in forms:
-                        compared.add(p)
+                    alts.append([c.eng.cond(c.parse(f"self.{p} == other.{p}")), c.eng.cond(c.parse(f"Shape.cast(self.{p}) == Shape.cast(other.{p})"))])
+                ok = False
+                import itertools
+                for combo in itertools.product(*alts) if alts else [()]:
+                    want = dl.f_and(c.eng.cond(isinst), *combo)
+                    if dl.equivalent(c.eng, found, want)[0]:
+                        ok = True
                         break
-                else:
-                    odd.append(txt)
-            elif x[0] == 'call' and x[1] == ('name', 'isinstance'):
-                pass
-            else:
-                odd.append(ir.show(x))
-        rep.check(has_isinst, "C20.4", eq.site, f"{sig.qual}.__eq__ requires the same signature class", "no isinstance(other, <this class>) conjunct")
-        rep.check(compared == set(params) and not odd, "C20.4", eq.site, f"{sig.qual}.__eq__ compares exactly the defining parameters {params}",
-                  f"compared: {sorted(compared)}; other conjuncts: {odd}")
+                rep.check(ok, "C20.4", eq.site, f"{sig.qual}.__eq__ is true exactly when the class matches and {params} are all equal",
+                          f"the method computes {dl.f_show(found)[:160]}")
+            except Exception as e:
+                rep.unk("C20.4", eq.site, f"{sig.qual}.__eq__ as a Boolean function", str(e)[:100])
     # (c) create() builds the interface class from all parameters (or from the signature itself)
     cr = sig.method("create")
     if cr is None:
